@@ -117,6 +117,10 @@ func init() {
 			for _, m := range c.Replay["mods"].([]any) {
 				mods = append(mods, m.(string))
 			}
+			if ph, _ := c.Replay["proxy_history"].(bool); ph {
+				c16ProxyHistory(c)
+				return
+			}
 			if px, _ := c.Replay["proxy"].(bool); px {
 				c16ProxyLayer(c, mods)
 				return
@@ -200,11 +204,17 @@ func init() {
 		pe, skipped := c16ProxyLayer(c, proxyMods)
 		c.Run.Set("proxy_layer_requests", pe)
 		c.Run.Add("evaluations", pe)
+		if skipped == "" {
+			var he int64
+			he, skipped = c16ProxyHistory(c)
+			c.Run.Set("proxy_history_requests", he)
+			c.Run.Add("evaluations", he)
+		}
 		if skipped != "" {
 			c.Run.Set("proxy_layer_skipped", skipped)
 			exhaustive = false
 		} else {
-			c.Run.Set("proxy_layer", fmt.Sprintf("real proxy.Server on 127.0.0.1 in front of a local origin: every subset of %v on an exception rule for the origin x 4 client styles (request type known before / only from the response)", proxyMods))
+			c.Run.Set("proxy_layer", fmt.Sprintf("real proxy.Server on 127.0.0.1 in front of a local origin: every subset of %v on an exception rule for the origin x 4 client styles (request type known before / only from the response); every ordered pair of 6 pages of one host with different path-restricted exception verdicts through one proxy instance (first, second, first again)", proxyMods))
 		}
 
 		// non-exception and absent basic rules
@@ -222,7 +232,7 @@ func init() {
 		}
 
 		// flag decoding in Engine.GetCosmeticResult: each flag independently
-		e := urlfilter.NewEngine(stringStorage("##.g\nexample.org##.s\n~other.org##.g\n~example.org##.gx\n"))
+		e := urlfilter.NewEngine(stringStorage("##.g\nexample.org##.s\n~other.org##.g\n~example.org##.gx\ngoogle.*##.w\n"))
 		// ascending, then descending on the same engine: a result must not depend on
 		// what was asked before
 		var optOrder []int
@@ -242,6 +252,15 @@ func init() {
 			gs, ss := sortedSet(res.ElementHiding.Generic), sortedSet(res.ElementHiding.Specific)
 			gotG := len(gs) == 1 && gs[0] == ".g"
 			gotS := len(ss) == 1 && ss[0] == ".s"
+			// a rule for a wildcard-TLD domain is domain-specific: switching generic CSS off leaves it
+			resW := e.GetCosmeticResult("www.google.com", opt)
+			c.Run.Add("evaluations", 1)
+			ws := sortedSet(resW.ElementHiding.Specific)
+			if (len(ws) == 1 && ws[0] == ".w") != css || (!css && len(ws) != 0) {
+				c.Run.Violate(ev.Violation{Pred: "flag-decoding", Sig: map[string]any{"option": o, "host": "www.google.com"},
+					What:   fmt.Sprintf("GetCosmeticResult(www.google.com, option=%06b) over [google.*##.w ...]: specific=%v generic=%v, expected .w among the specific selectors iff CSS is enabled", o, resW.ElementHiding.Specific, resW.ElementHiding.Generic),
+					Replay: map[string]any{"mods": []string{}}})
+			}
 			if gotG != wantG || gotS != wantS || (!wantG && len(gs) != 0) || (!wantS && len(ss) != 0) {
 				c.Run.Violate(ev.Violation{Pred: "flag-decoding", Sig: map[string]any{"option": o},
 					What:   fmt.Sprintf("GetCosmeticResult(option=%06b): generic=%v specific=%v, expected generic present=%v specific present=%v", o, res.ElementHiding.Generic, res.ElementHiding.Specific, wantG, wantS),
